@@ -122,7 +122,10 @@ TEMPLATES = ["X", "`X`", "``X``", "```X\nb\n```\n", "``` a X\nb\n```\n", "~~~ X\
              "[a]: u\n 'b\n X'\n\n![a]\n",
              # destinations that pass the data:image whitelist, with metacharacters after the prefix
              "[a](data:image/png;X)", "![a](data:image/gif;X)", "<data:image/jpeg;X>", "[a]: data:image/webp;X\n\n[a]\n",
-             "[a](<data:image/png;X> \"X\")", "![X](DATA:IMAGE/PNG;X)"]
+             "[a](<data:image/png;X> \"X\")", "![X](DATA:IMAGE/PNG;X)",
+             # code whose text looks like the renderer's own wrapper (what a highlighter may return verbatim)
+             "```\n<pre>X</pre>\n```\n", "```\n<pre X\n</pre>\n```\n", "~~~ js\n<pre><code>X</code></pre>\n~~~\n",
+             "    <pre>X</pre>\n", "`<pre>X</pre>`", "```\n<pre>\nX\n</pre>\n\n```\n", "> ```\n> <pre>X</pre>\n"]
 
 _KITCHEN_OPTS = {"html": False, "typographer": True, "quotes": ["<", ">", "&", "\""], "langPrefix": "<&\" x",
                  "xhtmlOut": True, "breaks": True, "store_labels": True, "linkify": True}
